@@ -989,7 +989,7 @@ class HelicityDecay(AmpDecay):
             charge = all_data.get("charge_conjugation", None)
             if charge is not None:
                 H = tf.where(
-                    charge[..., None, None] > 0, H, H[..., ::-1, ::-1]
+                    charge[..., None, None, None] > 0, H, H[..., ::-1, ::-1]
                 )
         ret = tf.reshape(
             H,
